@@ -32,6 +32,9 @@ const RED: usize = 64;
 
 pub static mut TRACK: i32 = 0;
 pub static mut PANIC_SKIP: bool = false;
+/// set by a scripted panic (`resume_unwind` does not run the panic hook): the next word-aligned
+/// allocation is the panic runtime's exception object, not one of minivec's blocks
+pub static mut PANIC_SKIP_ONCE: bool = false;
 /// a tracked request has been refused: minivec is on its way to handle_alloc_error (abort); what the
 /// runtime allocates for its message and backtrace from here on is not minivec's
 pub static mut DYING: bool = false;
@@ -122,6 +125,10 @@ unsafe impl GlobalAlloc for Checking {
     // minivec's blocks always carry an alignment of at least align_of::<usize>(); byte-aligned
     // requests made while a call is on the stack are message strings of the panic runtime
     if TRACK <= 0 || PANIC_SKIP || DYING || l.align() < 8 {
+      return System.alloc(l);
+    }
+    if PANIC_SKIP_ONCE {
+      PANIC_SKIP_ONCE = false;
       return System.alloc(l);
     }
     let p = tracked_alloc(l.size(), l.align());
@@ -272,6 +279,7 @@ pub fn reset() {
     LIMIT = 1 << 30;
     TRACK = 0;
     PANIC_SKIP = false;
+    PANIC_SKIP_ONCE = false;
     DYING = false;
   }
 }
